@@ -1,8 +1,10 @@
 //! XMLOF <path>: the hex of the XML section of an E57 file on disk (E57Reader::raw_xml, which does not
 //! parse the XML), or `err` when the file cannot be read.  Used by tools/props/xmlp.py to run the XML
 //! parser model on the XML of the bundled files.
-//! XMLDEEP <n>: roxmltree on n nested elements `<a><a>...</a></a>`, run on a thread with a large stack,
-//! prints `ok <depth>` (the deepest element's depth) or `err-parse`.
+//! XMLDEEP <n> [stack KiB]: roxmltree::Document::parse alone (no tree walk) on n nested elements
+//! `<a><a>...</a></a>`, run on a thread with the given stack (default 1 GiB), prints `ok <n>` or
+//! `err-parse`.  With a small stack the process dies of stack overflow (roxmltree 0.20 recurses per
+//! nesting level and has no depth limit): that is the measurement.
 use crate::util::*;
 
 pub fn run(kind: &str, toks: &[&str]) -> Option<String> {
@@ -21,7 +23,8 @@ pub fn run(kind: &str, toks: &[&str]) -> Option<String> {
         }
         "XMLDEEP" => {
             let n: usize = toks.first().and_then(|t| t.parse().ok()).unwrap_or(1);
-            let h = std::thread::Builder::new().stack_size(1 << 30).spawn(move || {
+            let kib: usize = toks.get(1).and_then(|t| t.parse().ok()).unwrap_or(1 << 20);
+            let h = std::thread::Builder::new().stack_size(kib << 10).spawn(move || {
                 let mut s = String::with_capacity(n * 7);
                 for _ in 0..n {
                     s.push_str("<a>");
@@ -30,7 +33,7 @@ pub fn run(kind: &str, toks: &[&str]) -> Option<String> {
                     s.push_str("</a>");
                 }
                 match roxmltree::Document::parse(&s) {
-                    Ok(d) => format!("ok {}", d.descendants().count() - 1),
+                    Ok(d) => format!("ok {}", d.root().descendants().count() - 1),
                     Err(_) => "err-parse".to_string(),
                 }
             });
